@@ -387,6 +387,7 @@ mutual
 target) are exactly the lengths of the emitted code, for every statement and nesting -/
 theorem C10_compile_sizes_stmt (pc : Nat) (lc : Option LoopCtx) (tn : List Bool) : (s : Stmt) → (compS pc lc tn s).length = sizeS tn s
   | .emit _ | .raise | .panic _ | .recover | .defer_ _ | .call _ | .ret => by simp [compS, sizeS]
+  | .retE true _ | .retE false _ => by simp [compS, sizeS]
   | .tryCatch b h => by
     simp [compS, sizeS, C10_compile_sizes _ lc (true :: tn) b, C10_compile_sizes _ lc (false :: tn) h]; omega
   | .loop _ _ b => by
@@ -396,6 +397,96 @@ theorem C10_compile_sizes (pc : Nat) (lc : Option LoopCtx) (tn : List Bool) : (b
   | [] => by simp [compB, sizeB]
   | s :: r => by simp [compB, sizeB, C10_compile_sizes_stmt pc lc tn s, C10_compile_sizes _ lc tn r]
 end
+
+/-! ### C10_return_defers_once: a return statement and its deferred calls -/
+
+/-- RunDefers with every deferred call ending normally, as an equation on the whole machine state -/
+theorem runDefers_all_ok (m : Machine) (ms : MState) (c : Ctx) (rest : List Ctx)
+    (d : Nat) (ds : List Nat) (hd : c.defers = d :: ds) (hpend : c.pend = .none)
+    (hh : ms.s.halted = none) :
+    deliverSeq m (exec m ms c rest .runDefers) (List.replicate (ds.length + 1) .ok) =
+      after c rest ms.s.trace ((d :: ds).reverse ++ ms.s.spawned) .run := by
+  have hw : exec m ms c rest .runDefers =
+      waiting (childCtx m.stub d false) { c with pend := .normal ds } rest ms.s.trace (d :: ms.s.spawned) .run none := by
+    simp [exec, hd, spawn, waiting, hh]
+  have hcc : ({ ({ c with pend := .normal ds } : Ctx) with pend := .none } : Ctx) = c := by
+    cases c; simp_all
+  rw [hw, deliver_normal_ok m ds _ _ rest _ _ _ _ rfl, hcc]
+  simp [List.reverse_cons, List.append_assoc]
+
+/-- A return whose RunDefers is IMMEDIATELY followed by Return (a bare return, the end of a body,
+`return <expr>` in a function with named results: `compS … (.retE true e) = [e.instr, .runDefers, .ret]`).
+Excluded classes (explicit hypotheses): a deferred call ends with an error (`hok`, see
+`C10_defer_lifo_once` and the two known findings about it), and — hypothesis `hret` — an
+instruction that can fail sits between RunDefers and Return, which is `return <expr>` in a function
+with UNNAMED results (`C10_return_expr_twice_counterexample`).  Then, for any defer list and any
+try markers above the frame: the activation's deferred calls are started once each, last registered
+first; the next step pops the frame, the context is back in the caller with the CALLER's defer
+list, so none of them can be started again, and the return itself emits nothing. -/
+theorem C10_return_defers_once_partial (m : Machine) (ms : MState) (c : Ctx) (rest : List Ctx)
+    (d : Nat) (ds : List Nat) (above below : List Item) (f : Frame)
+    (hc : ms.s.ctxs = c :: rest) (hh : ms.s.halted = none) (hdl : ms.deliver = none)
+    (hm : ms.mode = .run) (hd : c.defers = d :: ds) (hpend : c.pend = .none)
+    (hrd : m.fetch c.unit c.pc = some .runDefers)
+    (hret : m.fetch c.unit (c.pc + 1) = some .ret)
+    (hst : c.stack = above ++ Item.frame f :: below) (hab : ∀ it ∈ above, it = Item.tryM)
+    (os : List Outcome) (hlen : os.length = ds.length + 1) (hok : os.all (· == .ok) = true) :
+    let r := step m (deliverSeq m (step m ms) os)
+    r.s.spawned = (d :: ds).reverse ++ ms.s.spawned ∧ r.s.trace = ms.s.trace ∧ r.s.halted = none ∧
+      r.mode = .run ∧
+      ∃ c', r.s.ctxs = c' :: rest ∧ c'.unit = f.unit ∧ c'.pc = f.pc ∧ c'.defers = f.defers ∧
+        c'.stack = below := by
+  have hos := all_ok_replicate os hok
+  rw [hlen] at hos
+  have h1 : step m ms = exec m ms { c with pc := c.pc + 1 } rest .runDefers := by
+    simp [step, hh, hc, hdl, hm, hrd]
+  have h2 := runDefers_all_ok m ms { c with pc := c.pc + 1 } rest d ds hd hpend hh
+  have ht := topFrame_spec above below f hab
+  intro r
+  have hr : r = cont (after { c with pc := c.pc + 1 } rest ms.s.trace ((d :: ds).reverse ++ ms.s.spawned) .run)
+      (restore { c with pc := c.pc + 1 + 1 } f below) rest := by
+    show step m (deliverSeq m (step m ms) os) = _
+    rw [h1, hos, h2]
+    simp [step, after, hret, exec, hst, ht]
+  rw [hr]
+  exact ⟨rfl, rfl, rfl, rfl, _, rfl, rfl, rfl, rfl, rfl⟩
+
+/-- the three return shapes that meet `hrd`/`hret` above, for every expression -/
+theorem C10_return_shapes (pc : Nat) (lc : Option LoopCtx) (tn : List Bool) (e : RExpr) (b : Block) :
+    compS pc lc tn .ret = [.runDefers, .ret] ∧
+    compS pc lc tn (.retE true e) = [e.instr, .runDefers, .ret] ∧
+    compS pc lc tn (.retE false e) = [.runDefers, e.instr, .ret] ∧
+    (compUnit b).drop (compUnit b).length.pred.pred = [.runDefers, .ret] := by
+  refine ⟨rfl, rfl, rfl, ?_⟩
+  simp [compUnit, Nat.pred]
+
+/-- non-vacuity: f0 calls f1; f1 (named result) registers two deferred calls and returns mkv(5) -/
+example : traceVM [[.call 1], [.defer_ 2, .defer_ 3, .retE true (.mkv 5), .ret], [.emit 1], [.emit 2]] 100 =
+    ([.mark 5, .mark 2, .mark 1], some .ok) := by decide
+
+/-- f0 calls f1; f1 (one UNNAMED result): defer{emit 1}; return f2().  f2: panic 7 -/
+def progRetExprPanic : Prog :=
+  [[.call 1], [.defer_ 3, .retE false (.call 2), .ret], [.panic 7, .ret], [.emit 1]]
+
+/-- the same with a NAMED result -/
+def progRetExprPanicNamed : Prog :=
+  [[.call 1], [.defer_ 3, .retE true (.call 2), .ret], [.panic 7, .ret], [.emit 1]]
+
+/-- f0: defer{emit 1}; try { return 1/zero } catch { emit 2 }; emit 3  (unnamed result) -/
+def progRetExprCaught : Prog :=
+  [[.defer_ 1, .tryCatch [.retE false .div] [.emit 2], .emit 3, .ret], [.emit 1]]
+
+/-- Known finding `defers-run-twice-on-failing-return-expr`: in a function with unnamed results
+RunDefers runs BEFORE the return expression and does not clear the defer list; when the expression
+then panics (first program) or raises an error caught by a try of the same function (third
+program) the same deferred call is started a second time.  With a named result it runs once. -/
+theorem C10_return_expr_twice_counterexample :
+    traceVM progRetExprPanic 200 = ([.mark 1, .mark 1], some .panic) ∧
+    traceSpec progRetExprPanic 200 = ([.mark 1, .mark 1], some .panic) ∧
+    traceVM progRetExprPanicNamed 200 = ([.mark 1], some .panic) ∧
+    traceVM progRetExprCaught 200 = ([.mark 1, .mark 2, .mark 3, .mark 1], some .ok) ∧
+    traceSpec progRetExprCaught 200 = ([.mark 1, .mark 2, .mark 3, .mark 1], some .ok) := by
+  refine ⟨by decide, by decide +kernel, by decide, by decide, by decide +kernel⟩
 
 /-! ### counterexamples (known findings) and the refinement statement -/
 
